@@ -190,6 +190,11 @@ func streamC11(c *Ctx) {
 		}
 		fim.Destroy()
 	}
+	for _, be := range []string{"bbolt", "badger-mem"} {
+		if !binaryReadBack(c, be) {
+			return
+		}
+	}
 	if _, err := d.Encode(d.NewDocumentOf(map[string]interface{}{"_id": fixedId(1), "t": mkTime(0, -60)})); err == nil {
 		c.Count("zone-offset:-60-accepted") // (would need a decode check; today it is refused)
 	}
